@@ -562,6 +562,87 @@ def mangled_declaration_rule(ctx):
     return obs
 
 
+def wave10_rules(ctx):
+    """obligations added after the tenth wave of seeded changes"""
+    import absint as ai
+    ob = ctx.ob
+    tc = ctx.tc
+    obs = []
+    # (1) the printer changes no text except through the escapers: no trimming, no case folding, no pattern replacement; the one
+    #     documented rewrite (`</wxs` inside inline script text) is the exact, case-sensitive `str::replace`
+    norm = []
+    n_fn = 0
+    for f in tc.fns:
+        if not f.body or f.module[:1] != ["stringify"]:
+            continue
+        n_fn += 1
+        for n in sir.walk(f.node, into_items=True):
+            if n.get("k") != "mcall":
+                continue
+            m = n["m"]
+            if re.match(r"trim|to_(ascii_)?(lower|upper)case|make_ascii|replacen|replace_all|replace_range|to_lowercase", m):
+                norm.append("%s calls `.%s()`" % (f.name, m))
+            if m == "replace":
+                lits = [sir.strip_ref(a).get("v") for a in n["args"] if sir.strip_ref(a).get("k") == "lit"]
+                if lits != ["</wxs", "< /wxs"]:
+                    norm.append("%s calls `.replace(%s)`" % (f.name, ", ".join(sir.expr_str(a)[:20] for a in n["args"])))
+    obs.append(ob("C14.verbatim/no-normalisation", False if norm else True if n_fn >= 10 else None, "stringify/*.rs", "; ".join(sorted(set(norm))[:3]) if norm else "%d printer functions: values are written as they are or through an escaper" % n_fn,
+                  witness=None if not norm else "wx:if=\" \" (a blank, truthy string) is printed as a bare `wx:if` (an empty, falsy one)"))
+    # (2) the array printer against the array grammar, for every arrangement of up to three items and holes: items are separated
+    #     by one `,`; a hole prints nothing; a hole in last place gets one more `,` (else `[a,,]` would read back as `[a,]`)
+    fs = [f for f in tc.fns if f.name == "expression_strigify_write" and f.body]
+    arm = None
+    if fs:
+        for a in sir.walk(fs[0].body):
+            if a.get("k") == "arm" and "LitArr" in sir.pat_variants(a["pat"]):
+                arm = a
+    if arm is None:
+        obs.append(ob("C14.prec/printer/LitArr/commas", None, "stringify/expr.rs", "the arm for array literals was not found"))
+    else:
+        f = fs[0]
+        binds = [b_["name"] for b_ in sir.walk(arm["pat"]) if b_.get("k") == "p_ident"]
+        fpat = None
+        if arm["pat"].get("k") == "p_struct":
+            for fl in arm["pat"]["fields"]:
+                if fl["name"] == "fields":
+                    fpat = fl["pat"].get("name") if fl["pat"].get("k") == "p_ident" else None
+
+        def hooks(it, e, st):
+            if e.get("k") == "call" and (sir.call_name(e) or "").split("::")[-1] == f.name:
+                return [(("Ok", ai.UNIT), st.event(("write", "v")))]
+            if e.get("k") == "mcall" and e["m"] == "write_token" and e["args"] and e["args"][0].get("k") == "lit":
+                return [(("Ok", ai.UNIT), st.event(("write", e["args"][0]["v"])))]
+            if e.get("k") == "mcall" and e["m"] == "write_str" and e["args"] and sir.strip_ref(e["args"][0]).get("k") == "lit":
+                return [(("Ok", ai.UNIT), st.event(("write", sir.strip_ref(e["args"][0])["v"])))]
+            return None
+        N = ("E", "Normal", (("value", ai.FREE),))
+        H = ("E", "EmptySlot", ())
+        wrong, und, n_ = [], False, 0
+        import itertools
+        for k_ in (1, 2, 3):
+            for shape in itertools.product("NH", repeat=k_):
+                it = ai.Interp(hooks=hooks, idx=tc)
+                env = {b_: ai.FREE for b_ in binds}
+                env.update({"stringifier": ai.FREE, (fpat or "fields"): ("A", tuple(N if c == "N" else H for c in shape))})
+                try:
+                    outs = [o for o in it.run(arm["body"], env) if ("$error-exit",) not in o.events]
+                except ai.TooManyPaths:
+                    outs = []
+                if not outs or any(o.tainted or o.approx for o in outs):
+                    und = True
+                    continue
+                want = "[" + ",".join("v" if c == "N" else "" for c in shape) + ("," if shape[-1] == "H" else "") + "]"
+                for o in outs:
+                    n_ += 1
+                    got = "".join(ev[1] for ev in o.events if ev[0] == "write")
+                    if got != want:
+                        wrong.append("[%s] is printed as `%s` (the grammar needs `%s`)" % (",".join("v" if c == "N" else "" for c in shape), got, want))
+        obs.append(ob("C14.prec/printer/LitArr/commas", False if wrong else None if und else True, ctx.where(f),
+                      "; ".join(sorted(set(wrong))[:2]) if wrong else "14 arrangements of items and holes print with the commas the array grammar needs" if not und else "an arrangement was not followed: not decided",
+                      witness=None if not wrong else "{{ [a,,] }} prints as [a,] and reads back as the one-item array"))
+    return obs
+
+
 def wave9_rules(ctx):
     """obligations added after the ninth wave of seeded changes"""
     import absint as ai
@@ -851,6 +932,7 @@ def run(ctx):
     obs += mangled_declaration_rule(ctx)
     obs += wave8_rules(ctx)
     obs += wave9_rules(ctx)
+    obs += wave10_rules(ctx)
     n = sum(1 for o in obs if o["key"].startswith("C14.children/"))
     if n < 44:
         obs.append(ctx.ob("C14.floor/children", False, "stringify/expr.rs", "only %d variants analysed (floor 44)" % n))
